@@ -145,6 +145,7 @@ def run_path(contract, decisions, registry, first):
             outcome = ('return', result)
         except PyExc as e:
             outcome = ('raise', e)
+        out['reachable'] = ctx.feasible(z3.BoolVal(True))
         env['new'] = NS(dict(args, ghost=NS(ip.state.ghost)))
         env['ghost'] = NS(ip.state.ghost)
         env['events'] = ip.state.events
@@ -185,7 +186,6 @@ def run_path(contract, decisions, registry, first):
                 conds.append(z3.BoolVal(False) if cond is False else (z3.BoolVal(True) if cond is True else cond))
             ctx.oblige('%s/modifies/frame' % pre, z3.And(conds) if conds else z3.BoolVal(True),
                        detail='locations outside the frame that may change: ' + '; '.join(descs[:8]))
-        out['reachable'] = ctx.feasible(z3.BoolVal(True))
     except PathEnd:
         out['kind'] = out['kind'] or 'cut'
     except Unsupported as e:
